@@ -350,6 +350,22 @@ def stage_targeted(ctx: Ctx, progs):
                         for clause in ('else:', 'elif q:', 'except E:', 'except* E:', 'finally:', 'case _:'):
                             judge_edit(ctx, 'append-clause', src, 'exec', (eln, ecol, eln, ecol), f'\n{" " * ind}{clause}\n{" " * ind}    pass')
                             judge_edit(ctx, 'append-clause', src, 'exec', (eln, ecol, eln, ecol), f'\n{" " * ind}{clause} pass')
+    # (4b) an edit that starts inside the header of a block / clause, runs to its end and re-states the rest of it followed by a new clause
+    for src in CLAUSE_PROGS:
+        root = fst.FST(src, 'exec')
+        lines = src.split('\n')
+        for f in root.walk(True):
+            if isinstance(f.a, (ast.ExceptHandler, ast.match_case, ast.If, ast.For, ast.While, ast.Try, ast.With)) and f.loc is not None:
+                ln, col, eln, ecol = f.loc
+                m = re.match(r'\s*(except\*?|case|if|elif|for|while|try|with)', lines[ln][col:] if not lines[ln][:col].strip() else lines[ln][col:])
+                if not m:
+                    continue
+                c0 = col + m.end(0)
+                rest = '\n'.join([lines[ln][c0:]] + lines[ln + 1:eln] + [lines[eln][:ecol]]) if eln > ln else lines[ln][c0:ecol]
+                ind = len(lines[ln]) - len(lines[ln].lstrip())
+                for clause in ('finally:', 'else:', 'except Y:', 'except* Y:', 'case _:', 'elif q:'):
+                    for body in ('\n' + ' ' * (ind + 4) + 'c', ' c', '\n' + ' ' * (ind + 4) + 'c\n' + ' ' * (ind + 4) + 'd'):
+                        judge_edit(ctx, 'restate-and-append-clause', src, 'exec', (ln, c0, eln, ecol), rest + '\n' + ' ' * ind + clause + body)
     # (5) line continuations and semicolons
     for src in CONT_PROGS:
         root = fst.FST(src, 'exec')
